@@ -32,9 +32,12 @@ const (
 	// the lane's worker is gone afterwards. Such a task does not "return", so the C06/C08 promises about later tasks
 	// only count the workers that are left; the shutdown promises of C07 are not conditional on it.
 	TGoexit
+	// TNil pushes the nil Task value. PushTask accepts it like any other value; "starting" it is a nil method call
+	// that panics inside the worker, which recovers - a panicking task like any other, observable at hook point W1.
+	TNil
 )
 
-var taskKindNames = []string{"instant", "gated", "sleep", "panic", "gatedPanic", "cancel", "goexit"}
+var taskKindNames = []string{"instant", "gated", "sleep", "panic", "gatedPanic", "cancel", "goexit", "nil"}
 
 type TaskSpec struct {
 	Kind  TaskKind
@@ -57,9 +60,14 @@ func (s TaskSpec) String() string {
 		return "cancelsContext"
 	case TGoexit:
 		return "goexit"
+	case TNil:
+		return "nilTask"
 	}
 	return "instant"
 }
+
+// nilTaskPanic stands in s.raised for the run-time error that starting a nil task raises.
+type nilTaskPanic struct{}
 
 type customErr struct{ code int }
 
@@ -220,6 +228,9 @@ func (v sliceTask) Start() { v.t.Start() }
 
 // wrap picks the dynamic type under which task t is pushed (by task id, so that programs stay deterministic).
 func (t *task) wrap() tasklane.Task {
+	if t.spec.Kind == TNil {
+		return nil
+	}
 	switch t.id % 4 {
 	case 1:
 		return funcTask(t.Start)
@@ -266,6 +277,7 @@ type sim struct {
 	cancelled       atomic.Bool
 	byTask          atomic.Bool
 	goexits         atomic.Int32 // tasks that ended their goroutine with runtime.Goexit()
+	nilTaken        atomic.Int32 // nil tasks a worker was about to start (hook point W1)
 	directorPushing atomic.Bool
 	producers       sync.WaitGroup
 	pollers         sync.WaitGroup
@@ -376,6 +388,14 @@ func (s *sim) hook(point string, lane int, tk tasklane.Task) {
 	s.mu.Lock()
 	s.res.HookHits[point]++
 	s.mu.Unlock()
+	if tk == nil && point == "W1" {
+		s.nilTaken.Add(1) // a worker is about to start a nil task: it will panic and recover
+	}
+	if tk == nil && point == "W2" {
+		s.mu.Lock()
+		s.raised = append(s.raised, nilTaskPanic{}) // by now the worker has recovered from the nil method call
+		s.mu.Unlock()
+	}
 	if t := unwrap(tk); t != nil && point == "W1" {
 		t.startedBy.Store(int32(lane))
 		if lane != t.lane {
@@ -439,7 +459,16 @@ func (s *sim) quiescent(where string) {
 	raised := append([]any(nil), s.raised...)
 	s.mu.Unlock()
 	accepted, started := 0, 0
+	nilAccepted, nilInFlight := 0, 0
 	for _, t := range tasks {
+		if t.spec.Kind == TNil {
+			if t.pushed && t.err == nil {
+				nilAccepted++
+			} else if !t.pushed {
+				nilInFlight++ // its PushTask has not returned yet (it may have enqueued already: parked at P2)
+			}
+			continue // nil tasks have no counter of their own: they are counted at W1
+		}
 		c := t.count
 		if c > 1 {
 			s.violate("C06", "%s: task #%d (%s) has been started %d times", where, t.id, t.spec, c)
@@ -454,11 +483,20 @@ func (s *sim) quiescent(where string) {
 			}
 		}
 	}
+	if nt := int(s.nilTaken.Load()); nt > nilAccepted+nilInFlight {
+		s.violate("C06", "%s: %d nil task(s) were accepted (%d more pushes in progress) but workers started a nil task %d times", where, nilAccepted, nilInFlight, nt)
+	} else {
+		accepted += nilAccepted
+		started += min(nt, nilAccepted)
+	}
 	if m := int(s.maxRun.Load()); m > s.p.LaneSize {
 		s.violate("C08", "%s: up to %d tasks were executing at once with laneSize %d", where, m, s.p.LaneSize)
 	}
 	st := s.checkStatus(where)
-	if len(raised) == 0 {
+	_, lastIsRuntimeErr := st.LastPanic.(runtime.Error)
+	if lastIsRuntimeErr && s.nilTaken.Load() > 0 {
+		// the nil method call of a nil task that a worker has taken (it may not have reached W2 yet)
+	} else if len(raised) == 0 {
 		if st.LastPanic != nil {
 			s.violate("C14", "%s: Status().LastPanic = %#v although no task has panicked", where, st.LastPanic)
 		}
@@ -467,6 +505,11 @@ func (s *sim) quiescent(where string) {
 		for _, v := range raised {
 			if reflect.DeepEqual(st.LastPanic, v) {
 				ok = true
+			}
+			if _, isNil := v.(nilTaskPanic); isNil {
+				if _, rte := st.LastPanic.(runtime.Error); rte {
+					ok = true // the nil method call of a nil task
+				}
 			}
 		}
 		if !ok {
@@ -722,6 +765,8 @@ func (s *sim) shutdown(maxSleep time.Duration) {
 				}
 				if !t.pushed {
 					s.viol = append(s.viol, Violation{"C06", fmt.Sprintf("PushTask(task #%d, lane %d) has not returned %s after it was called (timeout %s)", t.id, t.lane, big, s.p.Timeout)})
+				} else if t.spec.Kind == TNil {
+					// counted at W1, judged by quiescent() above
 				} else if t.err == nil && t.count.Load() != 1 && (t.count.Load() > 1 || int(s.goexits.Load()) < s.p.LaneSize) {
 					s.viol = append(s.viol, Violation{"C06", fmt.Sprintf("with a live context, all gates open and time advanced, accepted task #%d (%s, lane %d) has start count %d, want 1", t.id, t.spec, t.lane, t.count.Load())})
 				}
